@@ -1,4 +1,4 @@
-CONSTANTS Lvl <- DefaultLvl MaxOps = 4 MaxDepth = 1 MaxTotal = 4
+CONSTANTS Lvl <- DefaultLvl MaxOps = 4 MaxDepth = 1 Reps <- AllOps MaxTotal = 4
 INIT Init
 NEXT Next
 CHECK_DEADLOCK FALSE
